@@ -367,6 +367,39 @@ func c12A(e *core.Env) {
 			}
 		}
 	}
+	// falling back: within one logical request a host that has just failed with a retryable status is not asked
+	// again while a host that has never failed has not been asked at all
+	{
+		firstFail := map[string]bool{}
+		visited := map[int]map[string]bool{}
+		lastOf := map[int]*simnet.Exchange{}
+		for _, x := range net.Log {
+			if x.Redirect {
+				continue
+			}
+			i := reqOf[x.Seq]
+			if visited[i] == nil {
+				visited[i] = map[string]bool{}
+			}
+			if p := lastOf[i]; p != nil && p.Host == x.Host && x.Sent <= doEnd[i] {
+				switch kindOf[p.Seq] {
+				case simnet.F500, simnet.F502, simnet.F503, simnet.F504, simnet.F408, simnet.F429:
+					for _, y := range hosts {
+						if y.Name != x.Host && !visited[i][y.Name] && !firstFail[y.Name] {
+							e.Violation("fallback", "failed-host-retried-before-untried-host", "logical request %d: %s answered %s and was asked again at once, although %s had not been asked and had never failed", i, x.Host, simnet.FaultNames[kindOf[p.Seq]], y.Name)
+							break
+						}
+					}
+					e.Probe("same-host-retry-checked")
+				}
+			}
+			visited[i][x.Host] = true
+			lastOf[i] = x
+			if k := kindOf[x.Seq]; k != 0 || !(x.Status >= 200 && x.Status < 300 || x.Status == 404) {
+				firstFail[x.Host] = true
+			}
+		}
+	}
 	// termination within a budget derived from the configuration (liveness; also under forever-repeating servers)
 	budget := time.Duration(limit+2)*(effMax+121*time.Second) + time.Minute
 	for i, d := range opTimes {
@@ -494,8 +527,8 @@ func c12B(e *core.Env) {
 		return r
 	}
 	srcS := oracle.RegStore{Reg: up, Repo: "proj/app"}
-	op := e.Choose("gen", 11, "op")
-	opNames := []string{"manifest-get", "manifest-head", "blob-get", "blob-head", "tag-list", "referrer-list", "manifest-put", "blob-put", "tag-delete", "manifest-delete", "image-copy"}
+	op := e.Choose("gen", 12, "op")
+	opNames := []string{"manifest-get", "manifest-head", "blob-get", "blob-head", "tag-list", "referrer-list", "manifest-put", "blob-put", "tag-delete", "manifest-delete", "image-copy", "blob-delete"}
 	var plan []string
 	var pos []int
 	for p := range faultAt {
@@ -647,6 +680,21 @@ func c12B(e *core.Env) {
 				fail("ManifestDelete returned nil but the manifest is still there")
 			}
 		}
+	case "blob-delete":
+		// a blob nothing refers to (also held by the mirrors, which must not be asked to delete it)
+		up.K.DeleteBlob = true
+		orphan := []byte("a blob nothing refers to")
+		od := up.PutBlob("proj/app", orphan)
+		for _, m := range mirrors {
+			m.K.DeleteBlob = true
+			m.PutBlob("proj/app", orphan)
+		}
+		err = rc.BlobDelete(ctx, mkref("up.test/proj/app"), descriptor.Descriptor{Digest: digest.Digest(od), Size: int64(len(orphan))})
+		if err == nil {
+			if _, ok := srcS.Blob(od); ok {
+				fail("BlobDelete returned nil but the blob is still there")
+			}
+		}
 	case "image-copy":
 		err = rc.ImageCopy(ctx, mkref("up.test/proj/app:v1"), mkref("tgt.test/mirror/app:v1"))
 		drainTasks(e, 20)
@@ -729,8 +777,8 @@ func c12C(e *core.Env) {
 	}
 	up.K.TagPage = 2
 	up.K.ReferrersPage = 1
-	scen := e.Choose("gen", 6, "scenario")
-	names := []string{"upload-patch-4xx-location-range-forever", "upload-patch-5xx-forever", "taglist-next-link-self-loop", "referrers-next-link-self-loop", "upload-status-forever-stale", "blob-get-truncate-forever"}
+	scen := e.Choose("gen", 7, "scenario")
+	names := []string{"upload-patch-4xx-location-range-forever", "upload-patch-5xx-forever", "taglist-next-link-self-loop", "referrers-next-link-self-loop", "upload-status-forever-stale", "blob-get-truncate-forever", "upload-patch-202-without-progress-forever"}
 	fh := &foreverHost{inner: up}
 	status := []int{416, 400, 409, 404}[e.Choose("gen", 4, "status")]
 	switch names[scen] {
@@ -745,6 +793,15 @@ func c12C(e *core.Env) {
 	case "upload-patch-5xx-forever":
 		fh.match = func(r *simnet.Request) bool { return r.Method == "PATCH" }
 		fh.reply = func(r *simnet.Request) *simnet.Response { return simnet.NewResponse(500) }
+	case "upload-patch-202-without-progress-forever":
+		// every chunk is "accepted" (202) but the announced range never grows beyond the first byte
+		fh.match = func(r *simnet.Request) bool { return r.Method == "PATCH" }
+		fh.reply = func(r *simnet.Request) *simnet.Response {
+			rs := simnet.NewResponse(202)
+			rs.Header.Set("Location", r.Path)
+			rs.Header.Set("Range", "0-0")
+			return rs
+		}
 	case "taglist-next-link-self-loop":
 		fh.match = func(r *simnet.Request) bool { return strings.HasSuffix(r.Path, "/tags/list") }
 		fh.reply = func(r *simnet.Request) *simnet.Response {
@@ -799,7 +856,7 @@ func c12C(e *core.Env) {
 	start := time.Now()
 	var err error
 	switch names[scen] {
-	case "upload-patch-4xx-location-range-forever", "upload-patch-5xx-forever", "upload-status-forever-stale":
+	case "upload-patch-4xx-location-range-forever", "upload-patch-5xx-forever", "upload-status-forever-stale", "upload-patch-202-without-progress-forever":
 		data := bytes.Repeat([]byte("0123456789abcdef"), 10) // 160 bytes > max put 64: chunked
 		_, err = rc.BlobPut(ctx, mk("up.test/proj/new"), descriptor.Descriptor{Digest: digest.FromBytes(data), Size: int64(len(data))}, bytes.NewReader(data))
 	case "taglist-next-link-self-loop":
